@@ -2,7 +2,7 @@
    (style Q / discrete). *)
 From Coq Require Import Reals Lra QArith Qabs Sorting.Sorted.
 From EsVerif.Common Require Import Base.
-From EsVerif.C19 Require Import Model ModelQ Spec ProofsGeo ProofsSampler Exec ExecSound.
+From EsVerif.C19 Require Import Model ModelQ Spec ProofsGeo ProofsSampler ProofsSampler2 Exec ExecSound.
 
 (* ================================================================ sky positions (over R) *)
 
@@ -86,6 +86,21 @@ Theorem C19_sampler_in_grid : forall pofx x u y, gen_ok pofx x ->
   (nth 1 x 0 <= y <= qlast x)%Q.
 Proof. exact sampler_in_grid. Qed.
 
+(* the stored table is the normalised trapezoid-rule cumulative distribution:
+   pcum_k = (sum of the first k+1 trapezoids) / (sum of all of them) *)
+Theorem C19_pcum_is_normalised_trapezoid : forall pofx x k, gen_ok pofx x -> (k < length x - 1)%nat ->
+  (nth k (pcum_of pofx x) 0 == trap_area pofx x k / trap_area pofx x (length x - 2))%Q.
+Proof. exact pcum_is_normalised_trapezoid. Qed.
+
+(* a deviate between two tabulated cumulative values is mapped to the linear interpolation of the
+   grid abscissae x_(k+1), x_(k+2) against those values *)
+Theorem C19_sampler_is_linear_interpolation : forall pofx x u k, gen_ok pofx x ->
+  (S k < length (pcum_of pofx x))%nat ->
+  (nth k (pcum_of pofx x) 0 < u <= nth (S k) (pcum_of pofx x) 0)%Q ->
+  exists y, sampler pofx x u = Ok y
+            /\ (y == lin (nth k (pcum_of pofx x) 0) (nth (S k) (pcum_of pofx x) 0) (nth (S k) x 0) (nth (S (S k)) x 0) u)%Q.
+Proof. exact sampler_interpolates. Qed.
+
 (* the requested number of values is returned, each one the sampler's value for its deviate
    (gen_sample is the whole-call model the per-case correspondence evaluates) *)
 Theorem C19_count_returned : forall pofx x us, gen_ok pofx x ->
@@ -149,3 +164,11 @@ Proof.
   split; [eexists; split; [vm_compute; reflexivity|reflexivity]|].
   split; [repeat constructor|]. split; [vm_compute; reflexivity|]. split; reflexivity.
 Qed.
+
+(* the premises of the interpolation theorem are satisfiable, and the table of the small example
+   is the normalised trapezoid sums 3/2 and 3/2 + 3 over 9/2 *)
+Example C19_nonvacuous_interpolation :
+  (S 0 < length (pcum_of [1; 2; 1]%Q [0; 1; 3]%Q))%nat
+  /\ (nth 0 (pcum_of [1; 2; 1]%Q [0; 1; 3]%Q) 0 < 1 # 2 <= nth 1 (pcum_of [1; 2; 1]%Q [0; 1; 3]%Q) 0)%Q
+  /\ (trap_area [1; 2; 1]%Q [0; 1; 3]%Q 0 == 3 # 2)%Q /\ (trap_area [1; 2; 1]%Q [0; 1; 3]%Q 1 == 9 # 2)%Q.
+Proof. vm_compute. repeat split; try lia; try discriminate; try reflexivity. Qed.
